@@ -463,7 +463,7 @@ int main(int argc, char** argv) {
     if (g_edge && nv * tpv > 12) tpv = 12 / nv;
     const int nworkers = nv * tpv;
     g_superset = vh::args().geti("superset_unlock", 1) != 0;
-    g_ops = vh::args().geti("ops", vh::args().thorough() ? 4000 : 600);
+    g_ops = vh::args().geti("ops", vh::args().thorough() ? 3000 : 600);
     if (vh::is_tsan()) g_ops /= 4;
     g_ops /= vh::args().shape_div();
     if (g_ops < 50) g_ops = 50;
